@@ -36,7 +36,7 @@ LEVEL_NOTE = "Trusted: numpy comparisons and min/max; sklearn's check_random_sta
 TECHNIQUE = "runtime postcondition monitors (closed-box predicate, tight bounds, pad algebra, accept/reject equivalence of check_region) on every direct and nested call; seeded boundary-heavy workload"
 FLOORS = {
     "quick": {"eval:inside": 600, "eval:get_region": 350, "eval:pad_region": 380, "eval:scatter_points": 600, "eval:project_region": 60,
-              "eval:maxabs": 160, "eval:check_region": 2400, "eval:rejection": 900, "eval:grid_nodes_inside": 200, "distinct_nontrivial": 1300},
+              "eval:maxabs": 160, "eval:check_region": 2400, "eval:rejection": 900, "eval:grid_nodes_inside": 200, "distinct_nontrivial": 1300, "eval:arguments_unmodified": 5000, "class:get_region_wide_dtype": 40, "class:region_as_ndarray": 60},
     "thorough": {"eval:inside": 8000, "eval:get_region": 4500, "eval:check_region": 30000, "eval:rejection": 10000, "distinct_nontrivial": 15000},
 }
 JOBS = {"quick": 1, "thorough": 16}
@@ -98,7 +98,20 @@ def install(tap, run):
         run.evaluated("get_region")
         res = ev.result
         want = (east.min(), east.max(), north.min(), north.max())
-        ok = len(res) == 4 and all(float(a) == float(b) for a, b in zip(res, want))
+
+        def same(a, b):  # exact in the coordinates' own arithmetic (int64 beyond 2**53 and long double do not fit float64)
+            if np.asarray(b).dtype.kind in "iu":
+                try:
+                    return float(a).is_integer() and int(a) == int(b)
+                except (TypeError, ValueError, OverflowError):
+                    return False
+            if np.asarray(b).dtype == np.longdouble:
+                return bool(np.longdouble(a) == b)
+            return float(a) == float(b)
+
+        ok = len(res) == 4 and all(same(a, b) for a, b in zip(res, want))
+        if east.dtype.kind in "iu" or east.dtype == np.longdouble:
+            run.count("class:get_region_wide_dtype")
         if not ok:
             run.violation("get_region", "not the tight bounding box (W, E, S, N) of the first two coordinates",
                           {"easting": east, "northing": north, "result": list(res), "expected": list(want)}, key="get_region")
@@ -241,14 +254,30 @@ def install(tap, run):
                           {"region": region, "shape": a["shape"], "spacing": a["spacing"], "adjust": a["adjust"],
                            "pixel_register": a["pixel_register"], "easting": east, "northing": north}, key="node-outside")
 
-    tap.function(vc, "check_region", post=post_check_region)
-    tap.function(vc, "get_region", post=post_get_region)
-    tap.function(vc, "inside", post=post_inside)
-    tap.function(vc, "pad_region", post=post_pad)
-    tap.function(vc, "scatter_points", post=post_scatter)
-    tap.function(vp, "project_region", post=post_project_region)
-    tap.function(vu, "maxabs", post=post_maxabs)
-    tap.function(vc, "grid_coordinates", post=post_grid)
+    from .. import core
+
+    def pre(ev):
+        return (core.digest(ev.args), {k: (np.array(v, copy=True) if isinstance(v, np.ndarray) else v) for k, v in ev.args.items()})
+
+    def pure(post):
+        def wrapper(ev):
+            digest_before, kept = ev.pre
+            run.evaluated("arguments_unmodified")
+            if core.digest(ev.args) != digest_before:
+                run.violation("arguments_unmodified", "%s modified one of its arguments in place" % ev.name,
+                              {"callable": ev.name, "arguments_before": kept, "arguments_after": dict(ev.args)}, key="purity:" + ev.name)
+                ev.args = kept  # judge the result against what the caller passed
+            post(ev)
+        return wrapper
+
+    tap.function(vc, "check_region", pre=pre, post=pure(post_check_region))
+    tap.function(vc, "get_region", pre=pre, post=pure(post_get_region))
+    tap.function(vc, "inside", pre=pre, post=pure(post_inside))
+    tap.function(vc, "pad_region", pre=pre, post=pure(post_pad))
+    tap.function(vc, "scatter_points", pre=pre, post=pure(post_scatter))
+    tap.function(vp, "project_region", pre=pre, post=pure(post_project_region))
+    tap.function(vu, "maxabs", pre=pre, post=pure(post_maxabs))
+    tap.function(vc, "grid_coordinates", pre=pre, post=pure(post_grid))
 
 
 # ----------------------------------------------------------------------
@@ -363,19 +392,28 @@ def run_case(run, tap, stream, index, rng):
                     if isinstance(ce, np.ndarray) and ce.ndim == 2 and not ce.flags.c_contiguous:
                         run.count("class:inside_fortran_2d")
                 coords = (ce, cn) if rng.random() < 0.7 else (ce, cn, ce)
-                res = vd.inside(coords, region if rng.random() < 0.5 else tuple(region))
+                res = vd.inside(coords, [region, tuple(region), np.array(region)][int(rng.integers(0, 3))])
             run.sample("inside", {"region": region, "easting": np.asarray(ce), "northing": np.asarray(cn), "result": np.asarray(res)})
         elif stream == "get_region":
             for _ in range(8):
                 k = int(rng.choice([1, 2, 7, 30, 200]))
                 east, north = gen.cloud(rng, k, offset_factor=float(rng.choice([0, 1, 1e3]))) if k > 1 else (rng.normal(size=1), rng.normal(size=1))
-                if rng.random() < 0.2:
+                pick = rng.random()
+                if pick < 0.2:
                     east = np.round(east).astype("int64")
                     north = np.round(north).astype("int32")
+                elif pick < 0.3:  # integers that float64 cannot represent
+                    east = (2 ** 53 + 1 + 2 * rng.integers(0, 50, k)).astype("int64") * int(rng.choice([-1, 1]))
+                    north = (2 ** 62 + 1 + rng.integers(0, 1000, k)).astype("uint64")
+                elif pick < 0.4:  # extended precision
+                    east = np.longdouble(1) + np.arange(1, k + 1).astype(np.longdouble) * np.finfo(np.longdouble).eps * int(rng.integers(1, 7))
+                    north = east[::-1] * np.longdouble(3)
                 ce = _shaped(rng, east)
                 cn = np.asarray(north).reshape(np.shape(ce)) if not hasattr(ce, "index") else type(ce)(north, index=ce.index)
                 coords = (ce, cn) if rng.random() < 0.6 else (ce, cn, np.asarray(ce) * 0 + 7)
                 region = vd.get_region(coords)
+                if np.asarray(coords[0]).dtype.kind in "iu" and np.abs(np.asarray(coords[0], dtype="float64")).max() > 2 ** 52 or np.asarray(coords[0]).dtype == np.longdouble:
+                    continue  # the comparison arithmetic of `inside` itself is only float64-exact
                 inside = vd.inside(coords[:2], region)
                 run.evaluated("own_region")
                 if not np.all(np.asarray(inside)):
@@ -399,7 +437,16 @@ def run_case(run, tap, stream, index, rng):
                     region[3] = max(region[3], region[2] + 1)
                     region = [int(v) for v in region]
                     pad = (int(rng.integers(0, 50)), int(rng.integers(0, 50)))
-                padded = vd.pad_region(region, pad)
+                given = region
+                if mode != 3 and rng.random() < 0.5:  # the region as a float64 ndarray (or a row view of a table of regions), reused below
+                    table = np.array([region, region], dtype="float64")
+                    given = table[1] if rng.random() < 0.5 else np.array(region, dtype="float64")
+                    run.count("class:region_as_ndarray")
+                padded = vd.pad_region(given, pad)
+                if given is not region:
+                    padded_again = vd.pad_region(given, pad)  # same object, second call
+                    if tuple(float(v) for v in padded_again) != tuple(float(v) for v in padded):
+                        run.violation("pad_roundtrip", "two identical pad_region calls on the same region array differ", {"region": region, "pad": pad, "first": list(padded), "second": list(padded_again)}, key="pad-repeat")
                 back = vd.pad_region(padded, -pad if np.isscalar(pad) else (-pad[0], -pad[1]))
                 run.evaluated("pad_roundtrip")
                 if mode == 3:
